@@ -49,7 +49,16 @@ class MigWorld(World):
     def close_legacy(self, dirty=False):
         if self.ds is None or self.phase != "legacy":
             return
-        self.expected[self.cur_profile] = self.dump()
+        exp = self.dump()
+        for b in exp:
+            # what the legacy store says about the bucket when asked directly (not only what its listing says)
+            try:
+                from sim.world import meta_canon
+
+                exp[b]["meta"] = meta_canon(self.ds[b].metadata())
+            except Exception:
+                pass
+        self.expected[self.cur_profile] = exp
         if dirty:
             self.probes["legacy_exit_dirty"] += 1
         self._release()
